@@ -1,15 +1,15 @@
 """Claimed evidence level per property (mirrors MANIFEST.json)."""
 LEVELS = {
- "C01": "exploration",
+ "C01": "other",
  "C02": "other",
- "C03": "exploration",
+ "C03": "other",
  "C04": "exploration",
  "C05": "exploration",
  "C06": "other",
- "C07": "exploration",
+ "C07": "other",
  "C08": "exploration",
  "C09": "exploration",
- "C10": "exploration",
+ "C10": "other",
  "C11": "exploration",
  "C12": "proof",
  "C13": "proof",
